@@ -156,6 +156,8 @@ def generate(rng, tier):
                      ops=[rng.choice(['subset_obs', 'sort_obs', 'subset_channel', 'copy']) for _ in range(rng.choice([0, 0, 1, 2]))])
             if rng.random() < 0.12:      # a selection that matches nothing: zero observations
                 c['ops'].append('subset_none')
+            elif rng.random() < 0.3:     # measurements in column-major memory (as X.T or fancy indexing produce them; seeded change C16-m2)
+                c['ops'].append('fortran')
         elif kind == 'model':
             nc = rng.randint(3, 5)
             cls = rng.choice(['ModelFixed', 'ModelSelect', 'ModelWeighted', 'ModelInterpolate'])
@@ -175,6 +177,11 @@ def generate(rng, tier):
             c.update(ops=[(rng.randrange(3), rng.randrange(5), rng.random() < 0.4) for _ in range(rng.randint(2, 7))],
                      pathkind=rng.choice(['str', 'str', 'Path']))
         out.append(c)
+    # always present (rare under random generation): a Result with more than ten models through HDF5, by path and by handle
+    # (HDF5 lists group members alphabetically: model_10 before model_2; seeded changes C16-m1 / C16-m5)
+    for nm, target in ((11, 'path'), (12, 'handle')):
+        out.append(dict(kind='result', call='result', fmt='hdf5', target=target, ext='short', seed=rng.randrange(10 ** 6),
+                        routine='direct', n_rdm=4, n_cond=5, n_model=nm, N=5))
     return out
 
 
@@ -257,6 +264,9 @@ def build_dataset(c):
         elif op == 'subset_channel' and d.channel_descriptors:
             k = sorted(d.channel_descriptors)[0]
             d = d.subset_channel(k, d.channel_descriptors[k][0])
+        elif op == 'fortran':
+            d = d.copy()
+            d.measurements = np.asfortranarray(d.measurements)
     return d
 
 
